@@ -96,9 +96,12 @@ def _seq_case(repo, it, S, spec):
         if k != "ok" or p.fields["sequence"].fields["sequence"] != w1:
             out.append(("parent with alternative sequence", f"{desc}: parent_with_alternative_sequence -> {k}", f"{V}.parent_with_alternative_sequence"))
         elif chunk:
-            loc = p.fields["sequence"].fields["parent"].fields["location"]
-            if (loc.fields["start"], loc.fields["end"]) != (off, off + len(w1)):
-                out.append(("alternative chunk placement", f"{desc}: alternative chunk placed at ({loc.fields['start']},{loc.fields['end']}); expected ({off},{off + len(w1)})", f"{V}.parent_with_alternative_sequence"))
+            sp = p.fields["sequence"].fields.get("parent")
+            loc = sp.fields.get("location") if isinstance(sp, Obj) else None
+            got_pl = (loc.fields["start"], loc.fields["end"]) if isinstance(loc, Obj) else None
+            if got_pl != (off, off + len(w1)):
+                out.append(("alternative chunk placement", f"{desc}: the alternative sequence of a variant on a chunk is placed at {got_pl} "
+                            f"(None = not on a chunk at all); expected ({off},{off + len(w1)})", f"{V}.parent_with_alternative_sequence"))
     try:
         coll = it.apply(ClassTok("VariantIntervalCollection"), [list(reversed(objs))], {"parent_or_seq_chunk_parent": parent}, None, 0)
     except Raised as ex:
